@@ -1,13 +1,32 @@
---------------------------- MODULE LaneWordTrace ---------------------------
-(* Word-level trace validation (code -> spec) for lanes: every recorded atomic access to
-   the dq_state word of the queue under test (hooked real library, harness/drv_lane.c and
-   drv_chain.c) must be explained by the DQState operator that transcribes the C function
-   it was issued from, applied to the recorded old value with SOME arguments that function
-   can legally be called with; give-ups must be decisions the operator also takes; the
-   thread that releases or hands over the drain lock must own it; values must chain
-   (every access observes the word the previous one left).  All other records are skipped.
-   This binds the queue.c RMW loops (which cannot be called in isolation) to DQState.tla;
-   the inline ones are bound exhaustively by DQStateConf.tla. *)
+--------------------------- MODULE ChainWordTrace ---------------------------
+(* Word-level trace validation (code -> spec) for ONE QUEUE OF A TARGET-QUEUE HIERARCHY (property C03).
+   Copy of spec/LaneWordTrace.tla (same Allowed / GiveUpOk tables over the DQState operators: every recorded
+   atomic access to the dq_state word must be explained by the DQState operator that transcribes the C function
+   it was issued from; give-ups must be decisions the operator also takes; the thread that releases or hands
+   over the drain lock must own it; values chain), applied by tools/props/C03.py to the records of each queue of
+   the hierarchy separately (W = that queue's width; the file holds that queue's St / Tail / Reset / Quiesce
+   records plus the API-level and thread-event records of ALL queues, which only end obligation windows).
+
+   Differences from LaneWordTrace, each justified from the C code:
+   (1) mustDirty window.  In a hierarchy the first enqueuer of a queue is often NOT a client inside an API call:
+       a drainer pushes a child queue object (_dispatch_queue_push_queue -> dx_push(tq, dq) -> _dispatch_lane_push),
+       a redirect wrapper (_dispatch_continuation_redirect_push) or re-enqueues through _dispatch_queue_invoke_finish,
+       and no API event of that thread follows.  The obligation "the first enqueuer through _dispatch_lane_push owes
+       a wakeup with MAKE_DIRTY" is the same on every level (it is one function), but its window also ends at the
+       thread's next access to THIS word from any function other than _dispatch_queue_wakeup (dx_wakeup is the
+       last thing _dispatch_lane_push does; once the thread is elsewhere the wakeup was legitimately skipped:
+       _dispatch_lane_wakeup probed dq_items_tail = NULL).
+   (2) behind.  Kept on every level and for every thread: each fast path (_dispatch_queue_try_reserve_sync_width,
+       _dispatch_queue_try_acquire_barrier_sync, _dispatch_lane_concurrent_push before try_acquire_async) reads
+       dq_items_tail = NULL of THAT queue on the SAME thread before its rmw, also when the thread is a drainer
+       reserving width on the target on behalf of a redirected waiter (_dispatch_*_waiter_redirect_or_wake) or
+       _dispatch_sync_recurse walking down: a thread that exchanged this queue's tail since the list was last empty
+       cannot have read NULL after its own exchange unless the list became empty in between (a Tail record with
+       null = TRUE, which empties `behind`).  The trysync entry (_dispatch_barrier_trysync_or_async_f, used by
+       dispatch_queue_set_width / legacy retargeting) has no such check; the driver only uses it while recording is
+       paused.
+   (3) Quiesce: inner queues (role INNER) never carry max_qos / RECEIVED_OVERRIDE; same predicate.
+   Memory-order tokens of the records are not consulted (AGENT_GUIDE: informational on this machine). *)
 EXTENDS DQState, Sequences, FiniteSets, Json, IOUtils, TLCExt
 
 Tr == ndJsonDeserialize(IOEnv.TRACE)
@@ -156,6 +175,7 @@ TSt == /\ IsSt /\ ~Opaque /\ Consume
           /\ (FastPath(Rec, old) => Rec.t \notin behind)
           /\ IF Rec.f = "_dispatch_queue_wakeup" /\ Rec.op = "cmpxchg" /\ Rec.ok = 1 /\ Rec.t \in mustDirty
              THEN new.dirty /\ mustDirty' = mustDirty \ {Rec.t}
+             ELSE IF Rec.f # "_dispatch_queue_wakeup" THEN mustDirty' = mustDirty \ {Rec.t}     \* (1): the thread is elsewhere
              ELSE mustDirty' = mustDirty
           /\ CASE Rec.op = "load" -> new = old /\ drift' = drift
                [] Rec.op = "cmpxchg" /\ Rec.ok = 0 -> new = old /\ drift' = drift
